@@ -90,3 +90,12 @@ Print Assumptions C11_generic_min.
 Theorem C11_generic_max : forall s x, Signalo.Model.Generic.g_smax_step Signalo.Base.Arith.Qar s x = Signalo.Model.Sinks.max_step s x.
 Proof. exact Signalo.Proofs.Generic.gq_smax. Qed.
 Print Assumptions C11_generic_max.
+
+(* No false alarm: the boolean reading of this property that the correspondence check evaluates on the IMPLEMENTATION's
+   outputs (Check/C11.v, verdict bit 2) can never fail on outputs that agree with the model (bit 1 clear); side conditions,
+   where there are any, are boolean and say which recorded observations the model comparison does not cover. *)
+From Coq Require Import NArith.
+From Signalo Require Base.Report Check.C11 Proofs.Sound_C11.
+Theorem C11_checker_no_false_alarm : forall c : Signalo.Check.C11.case, Signalo.Proofs.Sound_C11.wf c = true -> N.land (Signalo.Base.Report.code (Signalo.Check.C11.check c)) 3 <> 2%N.
+Proof. exact Signalo.Proofs.Sound_C11.C11_check_sound. Qed.
+Print Assumptions C11_checker_no_false_alarm.
